@@ -67,7 +67,9 @@ for b, t in [("idxNull", "off"), ("conNoneNull", "off"), ("off", "idx"), ("off",
              ("off", "conNone"), ("off", "conNoneNull"), ("off", "conCascade"), ("off", "conCascadeNull"),
              ("idxNull", "idxCascade"), ("conNoneNull", "conCascadeNull"), ("idxNull", "conCascade"),
              # a cascading constraint on a reference into the same store: chains of bosses, a person that is its own boss, cycles
-             ("conCascadeNull", "off")]:
+             ("conCascadeNull", "off"),
+             # ... and a cascading fk *index* into the same store (not nullable: everybody has a boss, the first one itself)
+             ("idxCascade", "off")]:
     c04(b, t)
 
 # wide universes for generation only (no exhaustive run): cascades over many referrers inside busy transactions
@@ -76,6 +78,10 @@ family("C04_wide_conCascade", BASE, **FIVE, Teams=fs("t1", "t2"), TeamMode="conC
        Ops=fs("create", "update", "delete", "createTeam", "deleteTeam"), TeamPool=fs("t1", "t2"), FieldSets=Sub("FS_C04"), MaxOps=6)
 family("C04_wide_idxCascade", BASE, **FIVE, Teams=fs("t1", "t2"), TeamMode="idxCascade", BossMode="idxNull",
        Ops=fs("create", "update", "delete", "createTeam", "deleteTeam"), TeamPool=fs("t1", "t2"), BossPool=fs(NIL, "p1"), FieldSets=Sub("FS_C04"), MaxOps=6)
+
+# two people, every call about the boss: cycles of bosses under a cascading fk index / constraint build up within a few calls
+family("C04_cycle_idx", BASE, BossMode="idxCascade", Ops=fs("create", "update", "delete"), BossPool=fs("p1", "p2"), FieldSets=Sub("FS_C04"), MaxOps=6)
+family("C04_cycle_con", BASE, BossMode="conCascadeNull", Ops=fs("create", "update", "delete"), BossPool=fs(NIL, "p1", "p2"), FieldSets=Sub("FS_C04"), MaxOps=6)
 
 # both references cascade (team -> people -> people): a delete reaches the same person along two ways; DeleteWhere collects its ids first
 family("C04_wide_tree", BASE, **FIVE, Teams=fs("t1"), TeamMode="conCascadeNull", BossMode="conCascadeNull",
